@@ -26,11 +26,34 @@ EXTENDS LexerCore, PumpCore, FiniteSets, Json, TLCExt
 
 CONSTANTS TracePrefix, Groups
 
+\* Canaries built from the specification alone (nothing the lexer / parser under test produced enters them): the
+\* source `set x;` on two lines, its token stream as LexerCore!NextToken yields it, and the tokenizer calls PumpCore
+\* makes for it.  control must be exact, located, pump = 0, no violation; each canary-* corrupts one field.
+CanaryInput == <<"s", "e", "t", " ", "x", "\n", ";">>
 VARIABLES stage, grp, file, rec
 tvars == <<input, stage, grp, file, rec>>
+CanaryToks ==      \* evaluated in a state whose input is CanaryInput
+  LET st == Stream(S0, 0, 20) IN [k \in 1..Len(st) |-> [type |-> st[k].type, lit |-> st[k].lit, line |-> st[k].line, col |-> st[k].col]]
+\* parser.New pulls SET, IDENT; then LF (+ peek), SEMICOLON, EOF: N N N P N N as PumpCore walks it
+CanaryRun(outcome, cm, err) == [mode |-> "vcl", cm |-> cm, ct |-> <<"SET", "IDENT", "LF", "SEMICOLON", "SEMICOLON", "EOF">>,
+                                outcome |-> outcome, err |-> err]
+GoodCM == <<"N", "N", "N", "P", "N", "N">>
+CanaryRecsFor(toks) ==
+  LET base == [id |-> "control", input |-> CanaryInput, lexed |-> TRUE, toks |-> toks, runs |-> <<CanaryRun("tree", GoodCM, <<>>)>>] IN
+  { base,
+    [base EXCEPT !.id = "control-errtok", !.runs = <<CanaryRun("parse_error", GoodCM, <<toks[2]>>)>>],
+    [base EXCEPT !.id = "canary-col", !.toks = [toks EXCEPT ![2] = [@ EXCEPT !.col = @ + 1]]],
+    [base EXCEPT !.id = "canary-line", !.toks = [toks EXCEPT ![3] = [@ EXCEPT !.line = @ + 1]]],
+    [base EXCEPT !.id = "canary-type", !.toks = [toks EXCEPT ![1] = [@ EXCEPT !.type = ""]]],
+    [base EXCEPT !.id = "canary-outcome", !.runs = <<CanaryRun("panic", GoodCM, <<>>)>>],
+    [base EXCEPT !.id = "canary-pump", !.runs = <<CanaryRun("tree", <<"N", "N", "N", "N", "N", "N">>, <<>>)>>],
+    [base EXCEPT !.id = "canary-errtok", !.runs = <<CanaryRun("parse_error", GoodCM, <<[toks[2] EXCEPT !.line = 0, !.col = 0]>>)>>] }
+CanaryStep == /\ stage = 0 /\ stage' = 9 /\ input' = CanaryInput /\ UNCHANGED <<grp, file, rec>>     \* set the input ...
+CanaryPick == /\ stage = 9 /\ stage' = 3 /\ rec' \in CanaryRecsFor(CanaryToks) /\ UNCHANGED <<grp, file, input>>   \* ... lex it
 
 Init == stage = 0 /\ grp = 0 /\ file = <<>> /\ rec = <<>> /\ input = <<>>
-Next == \/ /\ stage = 0 /\ stage' = 1 /\ \E g \in 0..(Groups - 1) : grp' = g
+Next == \/ CanaryStep \/ CanaryPick
+        \/ /\ stage = 0 /\ stage' = 1 /\ \E g \in 0..(Groups - 1) : grp' = g
            /\ UNCHANGED <<file, rec, input>>
         \/ /\ stage = 1 /\ stage' = 2            \* a worker loads one file ...
            /\ file' = ndJsonDeserialize(TracePrefix \o ToString(grp) \o ".ndjson")
